@@ -38,12 +38,19 @@ def _check(x, y):
     return True
 
 
-def h_pair(d, sx, sy, lb, lf, feat, full):
+def h_pair(d, sx, sy, lb, lf, feat, full, warm=False):
     nx = nleaves(sx)
     fx = None if full is None else {i for i in full if i < nx}
     fy = None if full is None else {i - nx for i in full if i >= nx}
     x = Builder(d, 'x', lb=lb, lf=lf, feat=feat, full=fx).build(sx)
     y = Builder(d, 'y', lb=lb, lf=lf, feat=feat, full=fy).build(sy)
+    if warm:
+        # the process has answered the feature-erased twin of the pair before (every result must still be justified by ITS inputs)
+        from depccg.grammar import en
+        try:
+            en.apply_binary_rules(x.clear_features('X', 'nb'), y.clear_features('X', 'nb'))
+        except Exception as e:
+            return ('raises:' + type(e).__name__, sym_str(x), sym_str(y))
     return _check(x, y)
 
 
@@ -171,6 +178,12 @@ def obligations(tier):
                 for full in fulls:
                     yield Obligation('C03.pair[%s,%s,lb=%d,lf=%d,full=%s]' % (shape_name(sx), shape_name(sy), lb, lf, full), 'h_pair',
                                      dict(sx=sx, sy=sy, lb=lb, lf=lf, feat='mixed', full=full), cost=n * n)
+    for sx in shapes_upto(3):
+        for sy in shapes_upto(3):
+            n = nleaves(sx) + nleaves(sy)
+            if 2 <= n <= (4 if q else 5):
+                yield Obligation('C03.pair[%s,%s,lb=1,lf=1,asked after its feature-erased twin]' % (shape_name(sx), shape_name(sy)), 'h_pair',
+                                 dict(sx=sx, sy=sy, lb=1, lf=1, feat='mixed', full=([] if n > 3 else None), warm=True), cost=n * n)
     lits = literal_categories()
     atoms = [t for t in lits if all(ch not in t for ch in '/\\')]
     for lx in lits:
